@@ -12,7 +12,7 @@ cd $WT
 res=""
 if ! git apply --check "$PATCH" 2>/dev/null; then echo "$ID: patch does not apply to current HEAD"; git -C /repo worktree remove --force $WT; exit 3; fi
 # without patch: demo must pass
-cp "$DEMO" "$DEST"
+mkdir -p "$(dirname "$DEST")"; cp "$DEMO" "$DEST"
 (cd $WT/$PKG/.. >/dev/null 2>&1; true)
 if go test -vet=off -count=1 -run "$RUN" ./$PKG/ >/tmp/seedconfirm-$ID.clean.log 2>&1; then res="$res demo-passes-on-clean"; else res="$res DEMO-FAILS-ON-CLEAN"; fi
 git apply "$PATCH"
